@@ -242,7 +242,16 @@ func (ex *Exec) assert(label string, cond *smt.Term) {
 	var model smt.Model
 	var who, note string
 	if !cached {
-		res, model, note, who = smt.Portfolio(as, true, ex.P.FinalLimit, false)
+		relaxedUnsat := false
+		if smt.Relaxable(as) {
+			if r, _ := smt.PortfolioRelaxed(as, ex.P.FinalLimit); r == smt.Unsat {
+				relaxedUnsat = true
+				res, who = smt.Unsat, "relaxed-to-reals"
+			}
+		}
+		if !relaxedUnsat {
+			res, model, note, who = smt.Portfolio(as, true, ex.P.FinalLimit, false)
+		}
 		ex.nFinal++
 		if res == smt.Sat && !cond.IsFalse() {
 			// the sliced query has a model: get a complete one from the full path condition
